@@ -205,6 +205,16 @@ def dataframe_clause(rng):
             if len(passthrough) < (2 if isinstance(lf, pykoop.DelayLiftingFn) else len(cols)) and not isinstance(lf, pykoop.DelayLiftingFn):
                 bad.append(dict(what='a column that passes through the lift unchanged is not labelled with its own name',
                                 estimator=repr(lf), given=cols, names=names))
+            # the same labels attached to other columns (a DataFrame whose columns are permuted) is not the data the
+            # estimator was fitted on: it must be rejected, not silently processed by position
+            perm = cols[:-2] + [cols[-1], cols[-2]]
+            df3 = pandas.DataFrame(df.values, columns=perm)
+            try:
+                lf.transform(df3)
+                bad.append(dict(what='transform accepted a DataFrame whose column names are permuted (columns would be '
+                                     'processed under the wrong names)', estimator=repr(lf), fitted_on=cols, given=perm))
+            except ValueError:
+                pass
             df2 = df.rename(columns={cols[-2]: 'speed'})
             try:
                 lf.transform(df2)
